@@ -79,6 +79,20 @@ def handle (sess : Sess) (rep : Report) (ln : Nat) (toks : List String) (obs : S
       let f : Flags := { project := p, opsProject := "", instance_name := i, database_name := d, instanceConfig := c,
                          probeType := "", numRows := 1, payloadSize := 1, qpsBits := 0 }
       let mine := s!"db={stringToHex (databaseURI f)} inst={stringToHex (instanceURI f)} cfg={stringToHex (instanceConfigURI f)} proj={stringToHex (projectURI f)}"
+      -- C18 monitor on the implementation's own resource names: names that flag validation accepts
+      -- (the regenerated character classes) appear as exactly their own path segments
+      let accepted (flag val : String) : Bool :=
+        match (GcpVerif.Generated.flagRegexes.find? fun q => q.1 == flag).bind fun q => parseClass q.2 with
+        | some cls => matchAll cls val
+        | none => false
+      let oa := args (obs.splitOn " ")
+      let got (k : String) : List String := match hexToString (arg oa k) with | some u => segs u | none => ["?"]
+      let rep := if accepted "project" p && accepted "instance_name" i && accepted "database_name" d && accepted "instanceConfig" c then
+          let rep := rep.bump "pb.uris_of_acceptable_names"
+          if got "db" == ["projects", p, "instances", i, "databases", d] && got "inst" == ["projects", p, "instances", i] &&
+             got "cfg" == ["projects", p, "instanceConfigs", c] && got "proj" == ["projects", p] then rep
+          else fail rep ln "accepted_flags_segments"
+        else rep
       (sess, if mine == obs then rep.bump "pb.uris" else diverge rep ln mine obs)
     | _, _, _, _ => (sess, rep.msg s!"BAD line={ln}")
   | some "interval" =>
